@@ -42,10 +42,10 @@ class ColEngine:
         if key in self.summ:
             return self.summ[key]
         if key in self._active or depth > 8 or isinstance(f.node, ast.Lambda):
-            return {"must_write": {}, "ret_table": None, "ret_keys": None, "ret_param": None}
+            return {"must_write": {}, "may_top": {a.arg: True for a in f.params}, "ret_table": None, "ret_keys": None, "ret_param": None}
         self._active.add(key)
         fl = _ColFlow(self, f, flags=dict(known), record=None, depth=depth)
-        init = {"tabs": {a: frozenset() for a in self.table_params(f)}, "dicts": {}}
+        init = {"tabs": {a: frozenset() for a in self.table_params(f)}, "dicts": {}, "top": set()}
         fl.run(f.node, init)
         exits = fl.exit_states
         mw = {}
@@ -56,7 +56,7 @@ class ColEngine:
         rparam = (rp.pop() if len(rp) == 1 and len(fl.ret_params) == fl.n_returns else None)
         if rparam == "<new>":
             rparam = None
-        res = {"must_write": mw,
+        res = {"must_write": mw, "may_top": {a: any(a in st_.get("top", ()) for st_ in exits) for a in self.table_params(f)},
                "ret_table": frozenset.intersection(*fl.ret_tables) if fl.ret_tables and len(fl.ret_tables) == fl.n_returns else None,
                "ret_keys": frozenset.intersection(*fl.ret_dicts) if fl.ret_dicts and len(fl.ret_dicts) == fl.n_returns else None,
                "ret_param": rparam}
@@ -112,11 +112,55 @@ class _ColFlow(Flow):
         self.n_returns = 0
 
     def copy(self, s):
-        return {"tabs": dict(s["tabs"]), "dicts": dict(s["dicts"])}
+        return {"tabs": dict(s["tabs"]), "dicts": dict(s["dicts"]), "top": set(s.get("top", ())), "acc": dict(s.get("acc", {}))}
 
     def join(self, a, b):
         return {"tabs": {k: a["tabs"][k] & b["tabs"][k] for k in set(a["tabs"]) & set(b["tabs"])},
-                "dicts": {k: a["dicts"][k] & b["dicts"][k] for k in set(a["dicts"]) & set(b["dicts"])}}
+                "dicts": {k: a["dicts"][k] & b["dicts"][k] for k in set(a["dicts"]) & set(b["dicts"])},
+                "top": set(a.get("top", ())) | set(b.get("top", ())),
+                "acc": {k: v for k, v in a.get("acc", {}).items() if b.get("acc", {}).get(k) == v}}
+
+    def equal(self, a, b):
+        return a["tabs"] == b["tabs"] and a["dicts"] == b["dicts"] and set(a.get("top", ())) == set(b.get("top", ()))
+
+    def escapes(self, node: ast.AST, s):
+        """table variables that occur in `node` in a position whose effect on the table is not modelled (alias, container element, argument of an
+        unresolved callee or constructor, ...): from then on the table may hold columns this analysis has not seen being written"""
+        parent = {}
+        for x in ast.walk(node):
+            for ch in ast.iter_child_nodes(x):
+                parent[id(ch)] = x
+        for x in ast.walk(node):
+            if not (isinstance(x, ast.Name) and isinstance(x.ctx, ast.Load) and x.id in s["tabs"]):
+                continue
+            par = parent.get(id(x))
+            if par is None:
+                if isinstance(node, ast.Name):
+                    s["top"].add(x.id)            # bare alias  y = pt
+                continue
+            if isinstance(par, ast.Attribute) and par.value is x:
+                if par.attr in ("col", "loc", "iloc"):
+                    gp = parent.get(id(par))
+                    if not (isinstance(gp, ast.Subscript) and gp.value is par) and not (gp is None and par is node):
+                        s["top"].add(x.id)        # the accessor itself is handed on
+                continue                          # pt.col[...] / pt.loc[...] / pt.update / a ProblemTable method
+            if isinstance(par, (ast.Return, ast.Compare)):
+                continue
+            if isinstance(par, ast.Tuple) and isinstance(parent.get(id(par)), ast.Return):
+                continue
+            if isinstance(par, ast.Call) and (x in par.args or any(k.value is x for k in par.keywords)):
+                if isinstance(par.func, ast.Name) and par.func.id in ("isinstance", "len", "print", "id", "type", "repr", "str"):
+                    continue
+                tg = [t for t in self.eng.r.resolve_call(self.f, par)]
+                if tg and all(isinstance(t, FuncInfo) and not isinstance(t.node, ast.Lambda) for t in tg):
+                    continue                      # summarised callee
+            if isinstance(par, ast.keyword):
+                call = parent.get(id(par))
+                if isinstance(call, ast.Call):
+                    tg = [t for t in self.eng.r.resolve_call(self.f, call)]
+                    if tg and all(isinstance(t, FuncInfo) and not isinstance(t.node, ast.Lambda) for t in tg):
+                        continue
+            s["top"].add(x.id)
 
     # ---------------------------------------------------------------- helpers
     def col(self, e: ast.AST) -> Optional[str]:
@@ -233,19 +277,30 @@ class _ColFlow(Flow):
     def table_var(self, e: ast.AST, s) -> Optional[str]:
         return e.id if isinstance(e, ast.Name) and e.id in s["tabs"] else None
 
+    def accessor_table(self, e: ast.AST, s) -> Optional[str]:
+        """table behind a column accessor:  X.col / X.loc / X.iloc,  or a local bound to one (`col = pt.col`)"""
+        if isinstance(e, ast.Attribute) and e.attr in ("col", "loc", "iloc"):
+            return self.table_var(e.value, s)
+        if isinstance(e, ast.Name) and e.id in s.get("acc", {}):
+            tv = s["acc"][e.id]
+            return tv if tv in s["tabs"] else None
+        return None
+
     def reads(self, node: ast.AST, s):
         """check X.col[K] loads in node"""
         if self.record is None:
             return
         for n in ast.walk(node):
-            if isinstance(n, ast.Subscript) and isinstance(n.ctx, ast.Load) and isinstance(n.value, ast.Attribute) and n.value.attr in ("col", "loc", "iloc"):
-                tv = self.table_var(n.value.value, s)
+            if isinstance(n, ast.Subscript) and isinstance(n.ctx, ast.Load):
+                tv = self.accessor_table(n.value, s)
                 if tv is None:
                     continue
                 keyn = n.slice.elts[1] if isinstance(n.slice, ast.Tuple) and len(n.slice.elts) == 2 else n.slice
                 c = self.col(keyn)
                 if c is None:
                     continue
+                if tv in s.get("top", ()) and c not in s["tabs"][tv]:
+                    continue                      # the table went through code this analysis does not model: undecided, not an alarm
                 self.record(self.f, n, tv, c, c in s["tabs"][tv])
 
     def effects(self, node: ast.AST, s):
@@ -254,18 +309,21 @@ class _ColFlow(Flow):
         for n in ast.walk(node):
             if isinstance(n, ast.Call):
                 fn = n.func
-                if isinstance(fn, ast.Attribute) and fn.attr == "fill" and isinstance(fn.value, ast.Subscript) and isinstance(fn.value.value, ast.Attribute) \
-                        and fn.value.value.attr == "col" and self.table_var(fn.value.value.value, s):
+                if isinstance(fn, ast.Attribute) and fn.attr == "fill" and isinstance(fn.value, ast.Subscript) and self.accessor_table(fn.value.value, s):
                     c = self.col(fn.value.slice)
+                    tv = self.accessor_table(fn.value.value, s)
                     if c:
-                        tv = self.table_var(fn.value.value.value, s)
                         s["tabs"][tv] = s["tabs"][tv] | {c}
+                    else:
+                        s["top"].add(tv)
                     continue
                 if isinstance(fn, ast.Attribute) and fn.attr == "update" and self.table_var(fn.value, s) and n.args:
                     ks = self.dict_keys(n.args[0], s)
+                    tv = self.table_var(fn.value, s)
                     if ks:
-                        tv = self.table_var(fn.value, s)
                         s["tabs"][tv] = s["tabs"][tv] | ks
+                    else:
+                        s["top"].add(tv)
                     continue
                 if isinstance(fn, ast.Attribute) and fn.attr == "update" and isinstance(fn.value, ast.Name) and fn.value.id in s["dicts"] and n.args:
                     ks = self.dict_keys(n.args[0], s)
@@ -282,6 +340,8 @@ class _ColFlow(Flow):
                             tv = self.table_var(a, s)
                             if tv is not None:
                                 s["tabs"][tv] = s["tabs"][tv] | sm["must_write"].get(pn, frozenset())
+                                if sm.get("may_top", {}).get(pn):
+                                    s["top"].add(tv)
 
     def transfer(self, st, s):
         if isinstance(st, (ast.FunctionDef, ast.AsyncFunctionDef, ast.ClassDef)):
@@ -289,17 +349,35 @@ class _ColFlow(Flow):
         s = self.copy(s)
         self.reads(st.value if isinstance(st, (ast.Assign, ast.AugAssign, ast.AnnAssign, ast.Expr, ast.Return)) and getattr(st, "value", None) is not None else st, s)
         self.effects(st, s)
+        self.escapes(st.value if isinstance(st, (ast.Assign, ast.AugAssign, ast.AnnAssign, ast.Expr, ast.Return)) and getattr(st, "value", None) is not None else st, s)
         if isinstance(st, (ast.Assign, ast.AugAssign)):
             tgs = st.targets if isinstance(st, ast.Assign) else [st.target]
             for t in tgs:
                 # X.col[K] = ... / X.loc[i, K] = ...
-                if isinstance(t, ast.Subscript) and isinstance(t.value, ast.Attribute) and t.value.attr in ("col", "loc", "iloc"):
-                    tv = self.table_var(t.value.value, s)
+                if isinstance(t, (ast.Tuple, ast.List)):
+                    # col[a], col[b] = f(...)
+                    for t1 in t.elts:
+                        if isinstance(t1, ast.Subscript) and self.accessor_table(t1.value, s):
+                            tv1 = self.accessor_table(t1.value, s)
+                            c1 = self.col(t1.slice) if not isinstance(t1.slice, ast.Tuple) else None
+                            if c1:
+                                s["tabs"][tv1] = s["tabs"][tv1] | {c1}
+                            else:
+                                s["top"].add(tv1)
+                if isinstance(t, ast.Subscript) and self.accessor_table(t.value, s):
+                    tv = self.accessor_table(t.value, s)
                     keyn = t.slice.elts[1] if isinstance(t.slice, ast.Tuple) and len(t.slice.elts) == 2 else t.slice
                     c = self.col(keyn)
                     whole = not isinstance(t.slice, ast.Tuple)
                     if tv and c and whole:
                         s["tabs"][tv] = s["tabs"][tv] | {c}
+                    elif tv and c is None:
+                        s["top"].add(tv)          # a column chosen at run time (label held in a variable / record field)
+                if isinstance(st, ast.Assign) and isinstance(t, ast.Name) and isinstance(st.value, ast.Attribute) and st.value.attr in ("col", "loc", "iloc") \
+                        and self.table_var(st.value.value, s):
+                    s.setdefault("acc", {})[t.id] = st.value.value.id
+                elif isinstance(st, ast.Assign) and isinstance(t, ast.Name) and t.id in s.get("acc", {}):
+                    s["acc"].pop(t.id, None)
                 if isinstance(st, ast.Assign) and isinstance(t, ast.Name):
                     v = st.value
                     newtab = self.table_expr(v, s) if isinstance(v, ast.Call) else None
@@ -335,6 +413,7 @@ class _ColFlow(Flow):
         s = self.copy(s)
         self.reads(test, s)
         self.effects(test, s)
+        self.escapes(test, s)
         fv = self.flag_value(test, s)
         if fv is True:
             return s, None
@@ -344,6 +423,7 @@ class _ColFlow(Flow):
 
     def bind_loop_target(self, node, s):
         self.reads(node.iter, s)
+        self.escapes(node.iter, s)
         return s
 
     def on_exit(self, kind, node, s):
@@ -377,7 +457,7 @@ def check_column_definitions(ctx: CheckContext, p: Program, r: Resolver, rule: s
                     d["ok"] = False
                     d["envs"].append(env)
             fl = _ColFlow(eng, f, env, record)
-            fl.run(f.node, {"tabs": {}, "dicts": {}})
+            fl.run(f.node, {"tabs": {}, "dicts": {}, "top": set()})
         ctx.info.setdefault("coldef_flags", {})[f.name] = flags
     ctx.info["coldef_flag_assignments_explored"] = n_paths
     for (q, key), d in sorted(results.items()):
